@@ -418,6 +418,9 @@ class Prop(Check):
         allreg = list(dict.fromkeys(list(case["reg"]) + [r for rs in self.file_regs(case).values() for r in rs]))
         classes = obs["classes"] + [r for r in allreg if r not in obs["classes"]]
         order = self.model_order(obs, self.new_files(case, obs))
+        alien = [e[1:] for e in obs["events"] if e[0] == "alien"]
+        if alien:
+            return f"calls of processors that the metamodel of the model has no registration for: {alien[:5]}"
         # processor calls with snapshots, model by model in walk order
         want = []
         for log in out["logs"]:
